@@ -1,3 +1,4 @@
+pub mod h1;
 pub mod relay;
 pub mod requests;
 
@@ -8,7 +9,7 @@ static RESPONSES: requests::Requests = requests::Requests { focus: requests::Foc
 static EGRESS: requests::Requests = requests::Requests { focus: requests::Focus::Egress };
 
 pub fn all() -> Vec<&'static dyn Scenario> {
-    vec![&relay::Relay, &AUTH, &RESPONSES, &EGRESS]
+    vec![&relay::Relay, &AUTH, &RESPONSES, &EGRESS, &h1::H1]
 }
 
 pub fn by_name(name: &str) -> Option<&'static dyn Scenario> {
